@@ -259,6 +259,25 @@ Qed.
 Lemma anti_next_le : (B <= as_next st')%positive.
 Proof. destruct anti_aresult as [I _ _ _ _]. exact (ai_next _ _ I). Qed.
 
+Lemma anti_numel : numel g = numel e.
+Proof.
+  destruct (antiunify_generalises fuel [e] [f] B [g] st' eq_refl anti_as_list) as (N & _ & _).
+  simpl in N. inversion N. reflexivity.
+Qed.
+
+(** every new axis has one size *)
+Lemma anti_g_consistent k n n' : In (k, n) (fvn g) -> In (k, n') (fvn g) -> n = n'.
+Proof.
+  intros H1 H2. pose proof anti_gen1 as G.
+  destruct (g_lggs1 _ _ _ _ _ G (k, n)) as (en & Hen & E); [simpl; rewrite app_nil_r; exact H1|].
+  destruct (g_lggs1 _ _ _ _ _ G (k, n')) as (en' & Hen' & E'); [simpl; rewrite app_nil_r; exact H2|].
+  assert (K : akey en' = akey en)
+    by (destruct en as [[[? ?] ?] ?], en' as [[[? ?] ?] ?]; simpl in *; inversion E; inversion E'; reflexivity).
+  pose proof (entry_of_In _ en (g_nodup _ _ _ _ _ G) Hen) as F1.
+  pose proof (entry_of_In _ en' (g_nodup _ _ _ _ _ G) Hen') as F2.
+  rewrite K in F2. rewrite F1 in F2. inversion F2; subst en'. rewrite E in E'. inversion E'. reflexivity.
+Qed.
+
 (** * an injective renaming covers nothing more *)
 Definition puid (x : axis) : positive := match x with Phys k _ => k | _ => xH end.
 
